@@ -17,7 +17,7 @@ global size_of usize == 8;
 pub type Indices = HashMap<u64, (Sequence, EntryAddressOrTombstone)>;
 
 // ---- the de-dup closure `insert_or_update` of RecoverRunner::run
-//@region foyer-storage/src/engine/block/recover.rs :: impl~^impl RecoverRunner$/fn run name=insert_or_update start=/\|hash: u64, sequence: Sequence, addr: EntryAddressOrTombstone\| match indices\.entry\(hash\) \{/ end=/\|hash: u64, sequence: Sequence, addr: EntryAddressOrTombstone\| match indices\.entry\(hash\) \{/ sub=@\|hash: u64, sequence: Sequence, addr: EntryAddressOrTombstone\| match indices\.entry\(hash\) \{@match indices.entry(hash) {@ sub=@\};\s*$@}@
+//@region foyer-storage/src/engine/block/recover.rs :: impl~^impl RecoverRunner$/fn run name=insert_or_update start=/let mut insert_or_update =/ stmts=1 sub=@let mut insert_or_update =\s*\|hash: u64, sequence: Sequence, addr: EntryAddressOrTombstone\| match@match@ sub=@\};\s*$@}@
 //@head
 fn insert_or_update(indices: &mut Indices, hash: u64, sequence: Sequence, addr: EntryAddressOrTombstone)
     ensures
@@ -38,7 +38,7 @@ impl AtomicSequence {
     #[verifier::external_body]
     pub fn store(&mut self, v: u64, o: Ordering) ensures final(self).v == v { }
 }
-//@region foyer-storage/src/engine/block/recover.rs :: impl~^impl RecoverRunner$/fn run name=restore_sequence start=/sequence\.store\(latest_sequence \+ 1, Ordering::Release\);/ end=/sequence\.store\(latest_sequence \+ 1, Ordering::Release\);/
+//@region foyer-storage/src/engine/block/recover.rs :: impl~^impl RecoverRunner$/fn run name=restore_sequence start=/sequence\.store\(/ stmts=1
 //@head
 fn restore_sequence(sequence: &mut AtomicSequence, latest_sequence: Sequence)
     requires latest_sequence < u64::MAX,
@@ -47,21 +47,26 @@ fn restore_sequence(sequence: &mut AtomicSequence, latest_sequence: Sequence)
 
 #[verifier::external_body]
 pub fn verif_max(a: Sequence, b: Sequence) -> (r: Sequence) ensures r == (if a >= b { a } else { b }) { unimplemented!() }
-//@region foyer-storage/src/engine/block/recover.rs :: impl~^impl RecoverRunner$/fn run name=track_latest_entry start=/latest_sequence = latest_sequence\.max\(addr\.sequence\);/ end=/latest_sequence = latest_sequence\.max\(addr\.sequence\);/ sub=@latest_sequence\.max\(addr\.sequence\)@verif_max(latest_sequence, addr.sequence)@
+/// the de-dup closure as seen from its two call sites: it must be given the version's own sequence
+#[verifier::external_body]
+fn verif_insert_or_update(hash: u64, sequence: Sequence, a: EntryAddressOrTombstone)
+    requires a matches EntryAddressOrTombstone::EntryAddress(x) ==> sequence == x.sequence, // @label entry_deduplicated_under_its_own_sequence
+{ }
+#[verifier::external_body]
+fn verif_insert_or_update_t(hash: u64, sequence: Sequence, a: EntryAddressOrTombstone)
+    requires a is Tombstone, // @label tombstone_deduplicated_as_tombstone
+{ }
+//@region foyer-storage/src/engine/block/recover.rs :: impl~^impl RecoverRunner$/fn run name=track_latest_entry start=/for EntryInfo \{ hash, addr \} in infos \{/ stmts=1 sub=@for EntryInfo \{ hash, addr \} in infos \{@{@ sub=@latest_sequence\.max\((.*?)\);@verif_max(latest_sequence, \1);@ sub=@insert_or_update\((.*)\);@verif_insert_or_update(\1);@
 //@head
-fn track_latest_entry(latest_sequence_in: Sequence, addr: &EntryAddress) -> (r: Sequence)
-    ensures r >= latest_sequence_in && r >= addr.sequence && (r == latest_sequence_in || r == addr.sequence), // @label latest_sequence_covers_every_recovered_entry
-//@before /latest_sequence = /
-    let mut latest_sequence = latest_sequence_in;
+fn track_latest_entry(mut latest_sequence: Sequence, hash: u64, addr: EntryAddress) -> (r: Sequence)
+    ensures r >= latest_sequence && r >= addr.sequence && (r == latest_sequence || r == addr.sequence), // @label latest_sequence_covers_every_recovered_entry
 //@tail
     latest_sequence
 //@end
-//@region foyer-storage/src/engine/block/recover.rs :: impl~^impl RecoverRunner$/fn run name=track_latest_tombstone start=/latest_sequence = latest_sequence\.max\(tombstone\.sequence\);/ end=/latest_sequence = latest_sequence\.max\(tombstone\.sequence\);/ sub=@latest_sequence\.max\(tombstone\.sequence\)@verif_max(latest_sequence, tombstone.sequence)@
+//@region foyer-storage/src/engine/block/recover.rs :: impl~^impl RecoverRunner$/fn run name=track_latest_tombstone start=/tombstones\.iter\(\)\.for_each\(\|tombstone\| \{/ body=1 sub=@latest_sequence\.max\((.*?)\);@verif_max(latest_sequence, \1);@ sub=@insert_or_update\((.*)\);@verif_insert_or_update_t(\1);@
 //@head
-fn track_latest_tombstone(latest_sequence_in: Sequence, tombstone: &TombT) -> (r: Sequence)
-    ensures r >= latest_sequence_in && r >= tombstone.sequence && (r == latest_sequence_in || r == tombstone.sequence), // @label latest_sequence_covers_every_tombstone
-//@before /latest_sequence = /
-    let mut latest_sequence = latest_sequence_in;
+fn track_latest_tombstone(mut latest_sequence: Sequence, tombstone: &TombT) -> (r: Sequence)
+    ensures r >= latest_sequence && r >= tombstone.sequence && (r == latest_sequence || r == tombstone.sequence), // @label latest_sequence_covers_every_tombstone
 //@tail
     latest_sequence
 //@end
@@ -77,7 +82,7 @@ pub fn verif_last_seq(l: Option<&EntryInfo>) -> (r: Option<Sequence>)
     ensures l.is_some() == r.is_some(), l.is_some() ==> r.unwrap() == l.unwrap().addr.sequence,
 { unimplemented!() }
 
-//@region foyer-storage/src/engine/block/recover.rs :: impl~^impl BlockRecoverRunner$/fn run name=append_blob_entries start=/for info in infos \{/ end=/for info in infos \{/ sub=@recovered\.last\(\)\.map\(\|last: &EntryInfo\| last\.addr\.sequence\)@verif_last_seq(recovered.last())@
+//@region foyer-storage/src/engine/block/recover.rs :: impl~^impl BlockRecoverRunner$/fn run name=append_blob_entries start=/for info in infos \{/ stmts=1 sub=@recovered\.last\(\)\.map\(\|last: &EntryInfo\| last\.addr\.sequence\)@verif_last_seq(recovered.last())@
 //@head
 #[verifier::exec_allows_no_decreases_clause]
 fn append_blob_entries(recovered: &mut Vec<EntryInfo>, infos: Vec<EntryInfo>) -> (stopped_g: Ghost<bool>)
